@@ -4,6 +4,7 @@ import Fundraising.Proofs.Reach
 import Fundraising.Proofs.VestingLemmas
 import Fundraising.Proofs.MatchLemmas
 import Fundraising.Proofs.EscrowProofs
+import Fundraising.Proofs.TotalSimInst
 /-
   C07 — block processing never fails, and never hides a failure.
   STATEMENTS ARE FIXED (cited by Props/C07.lean).
@@ -30,7 +31,14 @@ theorem beginBlock_reports_fault (st : State) (t : Int) (k : Nat) (hk : st.ctl.f
     let st' : State := { st with ctl := { st.ctl with fault := some k } }
     (step st' (.block t)).1.res = .err ∧
     (step st' (.block t)).2.core = { st.core with now := t } := by
-  sorry
+  intro st'
+  have _ := hk
+  have hx : xferCount (step st (.block t)).1.effs = xcount (step st (.block t)).1.effs := rfl
+  exact step_block_armed (faultSpec k) (faultSpec_ok k) st t ⟨rfl, Nat.zero_le _⟩ hok
+    (fun n hn => by
+      have h1 : n = xcount (step st (.block t)).1.effs := hn.1
+      have h2 : n ≤ k := hn.2
+      omega)
 
 /-- **a failing listener is reported.**  If the block, run with all listeners succeeding,
     calls hook `name` on listener `idx`, then with that listener failing the block
@@ -42,6 +50,9 @@ theorem beginBlock_reports_hook (st : State) (t : Int) (name : String) (idx : Na
     let st' : State := { st with ctl := { st.ctl with failhook := some (name, idx) } }
     (step st' (.block t)).1.res = .err ∧
     (step st' (.block t)).2.core = { st.core with now := t } := by
-  sorry
+  intro st'
+  have _ := hf
+  exact step_block_armed (hookSpec name idx) (hookSpec_ok name idx) st t
+    (fun _ hm => by cases hm) hok (fun _ hn => hn args hcall)
 
 end Fundraising
